@@ -45,6 +45,9 @@ class Packet:
         if isinstance(self.ip.data, dpkt.tcp.TCP):
             self.tcp = self.ip.data
             self.seq = self.tcp.seq
+            if self.tcp.flags & dpkt.tcp.TH_SYN:
+                # the SYN occupies one sequence number: data carried by a SYN segment (TCP Fast Open) starts one later
+                self.seq = (self.seq + 1) & 0xFFFFFFFF
             self.ack = self.tcp.ack
 
             self.sport = self.tcp.sport
